@@ -13,6 +13,8 @@
     V <key> <val>             the process environment has key=val
     E <mtimeNs> <text>        the file now holds <text>, modification time <mtimeNs>
     D                         the file is removed
+    M notifyreset <0|1>       does the implementation under test run the observers after a reset to the defaults?
+                              (0 = the code as it is; 1 = with proposed fix-D46) — selects `reloadN`
     R                         one reload (full-version comparison: mtime in ns + size)
     RR <mtimeNs> <text>       one reload during which the file becomes <text> right after it was read
     RS                        one reload with the whole-second comparison of the unchanged code
@@ -47,6 +49,7 @@ import Golib.Conf.FSDur
 import Golib.Conf.FullGrammar
 import Golib.Conf.FSFault
 import Golib.Conf.Tracks
+import Golib.Conf.SysHist
 import Driver.Common
 
 open Conf Drv
@@ -89,6 +92,7 @@ structure DrvSt where
   file : Option FileSt := none
   env : KV := []
   obs : Obs := Obs.empty
+  notifyReset : Bool := false
 
 def showRes (c : Cfg) : ReloadRes → String
   | .nofile => s!"nofile {c.notified}"
@@ -170,9 +174,10 @@ def answer (st : DrvSt) (line : String) : DrvSt × String :=
     | some t, some text => ({ st with file := some ⟨t, text⟩ }, "ok")
     | _, _ => (st, "bad-op")
   | ["D"] => ({ st with file := none }, "ok")
+  | ["M", "notifyreset", v] => ({ st with notifyReset := v == "1" }, "ok")
   | ["R"] =>
-    let (c, r) := reload verFull st.cfg st.file
-    ({ st with cfg := c, obs := if r == .loaded then st.obs.run else st.obs }, showRes c r)
+    let (c, r) := reloadN st.notifyReset verFull st.cfg st.file
+    ({ st with cfg := c, obs := if notifies st.notifyReset r then st.obs.run else st.obs }, showRes c r)
   | ["RR", t, text] => match parseInt t, decStr text, st.file with
     | some t, some text, some f1 =>
       -- a reload during which the file changes from its present state to ⟨t, text⟩ right after the read
